@@ -107,6 +107,17 @@ def gen_oracle(keys):
         out.append("}")
         out.append("pub const %s_LEN: usize = %d;" % (fname.upper(), len(t)))
     out.append("pub const ORACLE_KEYS_MISSING_FROM_ENUM: usize = %d;" % len(missing))
+    for sname in ("set1", "set2"):
+        out.append("/// Reference: the (prefix class 0 none / 1 E0 / 2 E1, make code) of a key in %s." % sname)
+        out.append("pub fn ref_%s_seq(k: KeyCode) -> Option<(u8, u8)> {" % sname)
+        out.append("    match k {")
+        for row in sc["keys"]:
+            if row["key"] in keyset and row.get(sname) is not None:
+                pre, code = row[sname]
+                out.append("        KeyCode::%s => Some((%d, 0x%02X))," % (row["key"], {"": 0, "E0": 1, "E1": 2}[pre], code))
+        out.append("        _ => None,")
+        out.append("    }")
+        out.append("}")
     # --- i8042 translation
     x = [0xFF] * 256
     for k, v in xl["xlat"].items():
